@@ -134,6 +134,18 @@ CHECKS.update({
             "DESIGN.md 4/C03"),
 })
 
+CHECKS.update({
+    "C08": ("exploration",
+            "exhaustive product enumeration of ill-typed / partial / lazily failing expressions x positions x placements x transactions processed in sequence; differential oracle against a fresh engine and against the file with the failing element removed",
+            "56 syntactically valid but failing expressions (type confusion, bad regexes, empty sequences, exhausted generators, unknown names, expressions failing only for some items, "
+            "generators that fail when consumed) in each of 7 positions (match, let unused/used, field, tag, transform, top-level variable) at 3 placements, on 10 transactions fed through "
+            "one engine with failing items first, via engine.match, normalize_merchant and parse_generic_csv; 14 failing view expressions as filter / variable through "
+            "analyze_transactions -> classify_by_sections. No exception may escape, all rows must come back, a failure on one item must not affect another, and the outcome for a "
+            "failing item must equal that of the file without the failing element.",
+            "failure for an item is decided by evaluating the expression alone with the real evaluator; loader-rejected files are outside the property",
+            "DESIGN.md 4/C08"),
+})
+
 NOT_YET = {}
 
 PROPS = [json.loads(l)["id"] for l in open(os.path.join(ROOT, "properties.jsonl"))]
